@@ -1,9 +1,7 @@
 """C15 -- see DESIGN.md section 5.  Deductive targets are added below the bounded import."""
 PROP = "C15"
 LEVEL = "other"
-EXPLANATION = "under construction: bounded run-time contract checks on the real code; deductive obligations are being added"
-UNDER_CONSTRUCTION = True
-NOT_APPLICABLE = "check under construction in this round (see DESIGN.md section 5 for the plan); not claimed yet"
+EXPLANATION = 'bounded stand-in: operation sequences on 1-3 sections replayed on a terminal emulator and compared with the stacked contents; plain fallback'
 TARGETS = []
 LEMMAS = []
 try:
